@@ -180,7 +180,33 @@ def bandErrors (s : Store) (b : Nat) : List Err :=
     (indexCheckError s b).toList ++ (hunkNumsOf s b).filterMap (hunkError s b)
   else [unreadableError s b]
 
-/-- The errors a listing of `n` reports, in order. -/
-def listErrors (s : Store) (n : Nat) : List Err := (chain s n).flatMap (bandErrors s)
+/-- A version id without head file whose index still holds hunk file 0.  Index hunks are only
+written after the head, so such a version HAD a head and lost it (damage); a directory left by a
+backup that was killed before it wrote its head has no hunk 0. -/
+def headLost (s : Store) (b : Nat) : Bool :=
+  !bandPresent s b &&
+  (match s.get? (.hunk b 0) with
+   | some v => !v.isDir
+   | none => false)
+
+/-- The errors reported on the way down from an incomplete version, below `b`: the errors of each
+version consulted (`chainBelow`), and — since the repair of `previous_existing_band` — one
+`bandHeadMissing` for every id passed over that has lost its head (`headLost`), in the order of the
+walk (newest id first). -/
+def errorsBelow (s : Store) : Nat → List Err
+  | 0 => []
+  | b + 1 =>
+    if bandPresent s b then
+      bandErrors s b ++ (if isComplete s b then [] else errorsBelow s b)
+    else (if headLost s b then [.bandHeadMissing b] else []) ++ errorsBelow s b
+
+/-- The errors of the versions of the chain alone (what a listing reported before the repair of
+`previous_existing_band`; what it reports whenever no id on the way has lost its head). -/
+def chainErrors (s : Store) (n : Nat) : List Err := (chain s n).flatMap (bandErrors s)
+
+/-- The errors a listing of `n` reports, in order: those of `n` itself, then, if `n` is incomplete,
+those of the walk down (`errorsBelow`). -/
+def listErrors (s : Store) (n : Nat) : List Err :=
+  bandErrors s n ++ (if isComplete s n then [] else errorsBelow s n)
 
 end Conserve
